@@ -46,6 +46,7 @@ var vfC18AddrPool = []struct { //nolint:gochecknoglobals
 	{"10.0.0.1", "v4"}, {"10.0.1.1", "v4"}, {"192.168.7.9", "v4"}, {"172.16.3.3", "v4"},
 	{"2001:db8::11", "v6"}, {"fd00:1::5", "v6-ula"}, {"fe80::1234", "v6-linklocal"}, {"fec0::7", "v6-sitelocal"},
 	{"::10.1.2.3", "v6-v4compat"}, {"127.0.0.1", "v4-loopback"}, {"::1", "v6-loopback"}, {"169.254.9.9", "v4-linklocal"},
+	{"fed0::1", "v6-sitelocal"}, {"feff::9", "v6-sitelocal"}, {"febf::3", "v6-linklocal"}, {"::0.0.0.9", "v6-v4compat"}, {"fc00::1", "v6-ula"},
 }
 
 func vfGenGatherCfg(rng interface{ IntN(int) int }) *vfGatherCfg {
@@ -63,7 +64,7 @@ func vfGenGatherCfg(rng interface{ IntN(int) int }) *vfGatherCfg {
 		for k := 1 + rng.IntN(3); k > 0; k-- {
 			a := vfC18AddrPool[rng.IntN(len(vfC18AddrPool))]
 			if ifc.Flags&net.FlagLoopback != 0 && rng.IntN(2) == 0 {
-				a = vfC18AddrPool[9+rng.IntN(2)]
+				a = vfC18AddrPool[9+rng.IntN(2)] // the two loopback addresses
 			}
 			if used[a.ip] {
 				continue
